@@ -32,6 +32,9 @@ def bounds(tier):
                 two_level=["cidar", "ecoflex", "moclo"], two_level_entries=[1, 2, 3], cassette_rotations_before_reuse=[0, 3, "n/2"])
 
 
+ID_STYLES = ["part_%02d", "araC-pBAD-%d", "kanR-cassette-v2-%d", "gb|X%d.1|", "m%d", "a-very-long-identifier-of-a-module-%02d", "p(%d)/x"]
+
+
 def goals(tier):
     return ["default-id", "requested-id", "k=3", "annotated-inputs", "unused-module-in-comment", "two-level-nested-provenance",
             "genbank-roundtrip", "rotated-inputs", "long-chain-comment", "product-named-like-one-of-its-parts"]
@@ -274,21 +277,25 @@ def unit_long_chain(st, enz):
         if any(rm.count_sites(p, g) != 2 for p in [vec] + mods):
             st.filtered += 1
             continue
-        ids = ["part-%02d_%s" % (i, "x" * (i % 3)) for i in range(k)]
-        recs = [CircularRecord(Seq(m), id=ids[i], name=ids[i][:16]) for i, m in enumerate(mods)]
-        vrec = CircularRecord(Seq(vec), id="backbone_vector", name="backbone_vector")
-        order = list(reversed(range(k)))
-        o = asm.run_assemble(V(vrec), [M(recs[i]) for i in order], id="chain%d" % k, name="chain%d" % k)
-        sc = dict(long_chain=k, enz=enz)
-        st.scenario("product" if o.kind == "product" else "none", None)
-        st.nontrivial += 1
-        if o.kind != "product":
-            st.violation("assembly", "assembly-fails-" + str(o.exc_name), sc, "product", o.brief())
-            continue
-        inputs = {ids[i]: mods[i] for i in range(k)}
-        inputs["backbone_vector"] = vec
-        check_product(st, dict(sc, retained_fragments=k + 1), o.record, inputs, "chain%d" % k, "chain%d" % k, ids, "backbone_vector")
-        st.goal("long-chain-comment")
+        # identifier styles x a pad that slides every identifier across every column of the comment line
+        for style in ID_STYLES:
+            for pad in range(0, 13):
+                ids = [style % i for i in range(k)]
+                ids[-1] = ids[-1] + "p" * pad                      # modules are passed in reverse order: this one is named first
+                recs = [CircularRecord(Seq(m), id=ids[i], name="n%d" % i) for i, m in enumerate(mods)]
+                vrec = CircularRecord(Seq(vec), id="backbone_vector", name="backbone_vector")
+                order = list(reversed(range(k)))
+                o = asm.run_assemble(V(vrec), [M(recs[i]) for i in order], id="chain%d" % k, name="chain%d" % k)
+                sc = dict(long_chain=k, enz=enz, id_style=style, pad=pad)
+                st.scenario("product" if o.kind == "product" else "none", None)
+                st.nontrivial += 1
+                if o.kind != "product":
+                    st.violation("assembly", "assembly-fails-" + str(o.exc_name), sc, "product", o.brief())
+                    continue
+                inputs = {ids[i]: mods[i] for i in range(k)}
+                inputs["backbone_vector"] = vec
+                check_product(st, dict(sc, retained_fragments=k + 1), o.record, inputs, "chain%d" % k, "chain%d" % k, ids, "backbone_vector")
+                st.goal("long-chain-comment")
     st.sample(dict(long_chain=6, enz=enz))
 
 
